@@ -696,8 +696,9 @@ def isRemoteErr (e : String) : Bool :=
 def checkMirror14 (cd : Codec S) (st : St14 S) (s : Sub14 S) : St14 S :=
   let later := st.hist.toList.drop s.k
   -- contents after every prefix of the history since the subscription (as texts)
-  let states : List String := (List.range (later.length + 1)).map (fun j => cd.showC (prefixState S s.max s.c0 (later.take j)))
-  let sizes : List Nat := (List.range (later.length + 1)).map (fun j => S.size (prefixState S s.max s.c0 (later.take j)))
+  -- (the collection's own history: no size limit; a mirror refuses a growing `Resize` beyond its limit *before* applying it)
+  let states : List String := (List.range (later.length + 1)).map (fun j => cd.showC (prefixState S 1000000000 s.c0 (later.take j)))
+  let sizes : List Nat := (List.range (later.length + 1)).map (fun j => S.size (prefixState S 1000000000 s.c0 (later.take j)))
   -- walk through the checkpoints
   let step := fun (acc : St14 S × Nat × Option String) (chk : Nat × String × String × String × String) =>
     let (st, idx, err) := acc
